@@ -432,13 +432,21 @@ Section Proofs.
                 map fst asg = map key vs /\
                 flat_all asg = g_reported fexp (rp_champion r) d vs x.
   Proof.
-    intros Hd Hr L. unfold rp_ok in Hr. apply andb_prop in Hr. destruct Hr as [Hr H3].
+    intros Hd Hr L. unfold rp_ok in Hr. apply andb_prop in Hr. destruct Hr as [Hr H4].
+    apply andb_prop in Hr. destruct Hr as [Hr H3].
     apply andb_prop in Hr. destruct Hr as [H1 H2].
     destruct (desc_ok_parts d Hd) as (Hcv & Hup & _).
-    unfold g_final_applied, g_reported. rewrite H1, H2, H3.
+    unfold g_final_applied, g_reported. rewrite H1, H2, H3, H4. simpl.
     destruct (g_convert_ok (d_cv d) vs x Hcv) as [-> _]. rewrite (g_assign_ok _ _ _ Hup).
     split; [reflexivity|]. split; [reflexivity|].
     exact (reported_is_applied fexp vs x L).
+  Qed.
+
+  (* with a bare squeeze the final run of a declaration of total width one is never configured *)
+  Lemma final_not_applied_width_one d r (vs : list var) x :
+    rp_final_1d r = false -> total vs = 1 -> g_final_applied fexp r d vs x = None.
+  Proof.
+    intros H T. unfold g_final_applied. rewrite H, T. reflexivity.
   Qed.
 
 End Proofs.
